@@ -9,10 +9,11 @@ IMPORTS = ["From MuxV Require Import Base.Num Base.FInst Model.AirfoilBlend Mode
 FUNCS = ["get_CL", "get_CD", "get_Cm", "get_CLa", "get_aL0", "get_CLRe", "get_CLM"]
 
 
-def functional_airfoil(rng):
+def functional_airfoil(rng, kRe=None):
     """an airfoil given by functions with Reynolds- and Mach-dependence (airfoil_db type 'functional'): the sensitivities CL,Re and CL,M
     are then non-zero and different from each other"""
-    a0, aL0, kRe, cd0, cm0 = rng.uniform(5.6, 6.6), rng.uniform(-0.06, 0.0), rng.uniform(0.02, 0.08), rng.uniform(0.005, 0.01), rng.uniform(-0.08, 0.0)
+    a0, aL0, kRe_, cd0, cm0 = rng.uniform(5.6, 6.6), rng.uniform(-0.06, 0.0), rng.uniform(0.02, 0.08), rng.uniform(0.005, 0.01), rng.uniform(-0.08, 0.0)
+    kRe = kRe_ if kRe is None else kRe
 
     def CL(**kw):
         al, Re, M = kw.get("alpha", 0.0), kw.get("Rey", 1e6), kw.get("Mach", 0.0)
@@ -46,6 +47,49 @@ def rand_wing(rng, hist):
           "reference": {"area": 8.0, "longitudinal_length": 1.0, "lateral_length": 8.0},
           "wings": {"w": w}}
     return ac, stations, names
+
+
+def end_to_end(chk, MX, n):
+    """after a solve, what distributions() reports per control point is the span-wise blend of the airfoils evaluated at that control
+    point's own reported angle of attack, Reynolds and Mach number - for every solver option combination"""
+    rng = chk.rng
+    for it in range(n):
+        ac, stations, names = rand_wing(rng, None)
+        ac["airfoils"] = {k: functional_airfoil(rng, kRe=rng.uniform(0.25, 0.4)) for k in ac["airfoils"]}     # strongly Reynolds-dependent sections
+        w = ac["wings"]["w"]
+        w["sweep"], w["dihedral"] = rng.choice([0.0, 20.0, 30.0]), rng.choice([0.0, 6.0])
+        w["airfoil"] = [[s_, names[k % len(names)]] for k, s_ in enumerate(stations)]
+        solver = gen.gen_solver(rng, chk.hist)
+        if it % 2 == 0:
+            solver["use_in_plane"] = False
+        # the swept-section model rescales the section coefficients after the airfoils have been evaluated: it is switched off here so that the
+        # reported coefficients are the airfoils' own
+        solver["use_swept_sections"] = False
+        sd_visc = 1.57e-4
+        sd = {"units": "English", "solver": solver, "scene": {"atmosphere": {"rho": 0.0023769, "viscosity": sd_visc, "speed_of_sound": 1116.0}}}
+        st = {"velocity": rng.choice([60.0, 250.0, 480.0]), "alpha": rng.uniform(1.0, 5.0), "beta": rng.uniform(-4.0, 4.0),
+              "angular_rates": [rng.uniform(-0.6, 0.6), rng.uniform(-0.2, 0.2), rng.uniform(-0.3, 0.3)]}     # local speed differs from the freestream
+        try:
+            sc = gen.build_scene(MX, sd, [("a", ac, st, {"flap": rng.choice([0.0, 3.0])})])
+            d = sc.distributions()["a"]
+        except Exception as e:
+            chk.count("end_to_end_error=" + type(e).__name__)
+            continue
+        chk.case(dict(kind="end-to-end", solver=solver, it=it), nontrivial=True)
+        for seg in sc._airplanes["a"].segments:
+            dd = d[seg.name]
+            al, Re, M = (np.array(dd[k], dtype=float) for k in ("alpha", "Re", "M"))
+            spans = [float(x) for x in seg._airfoil_spans]
+            cps = [float(x) for x in seg.cp_span_locs]
+            for key, fn in (("section_CL", "get_CL"), ("section_Cm", "get_Cm")):     # (the parasitic drag is evaluated at the total-velocity Reynolds number, which is not reported)
+                vals = [np.array(getattr(af, fn)(alpha=al, Rey=Re, Mach=M, trailing_flap_deflection=seg._delta_flap, trailing_flap_fraction=seg._cp_c_f),
+                                 dtype=float) * np.ones(seg.N) for af in seg._airfoils]
+                exp = np.array([np.interp(cps[i], spans, [v[i] for v in vals]) for i in range(seg.N)])
+                got = np.array(dd[key], dtype=float)
+                if not np.allclose(got, exp, rtol=1e-4, atol=1e-7):
+                    chk.violation("end-to-end:%s" % key, dict(kind="blend", aircraft={k: v for k, v in ac.items() if k != "airfoils"}, scene=sd, state=st, segment=seg.name, key=key,
+                                                              reported=got, blend_at_reported_alpha_Re_M=exp, alpha=al, Re=Re, M=M))
+                    return
 
 
 def run(chk):
@@ -116,6 +160,7 @@ def run(chk):
         for seg in sc2._airplanes["a"].segments:
             if seg._airfoils[0].name != list(ac2["airfoils"].keys())[0] or seg._num_airfoils != 1:
                 chk.violation("default-airfoil", dict(kind="blend", aircraft=ac2, used=seg._airfoils[0].name))
+    end_to_end(chk, MX, chk.q(8, 60))
     failing, nfiles, errors = common.run_cases("C16", IMPORTS, [], cases)
     chk.cov["traces_validated_against_impl"] = len(cases)
     chk.cov["correspondence_cases"] = len(cases)
